@@ -471,8 +471,44 @@ def run_one(c):
     return {"out": {"": [outs, final_ev]}, "oracle": oracle, "full": final_full}
 
 
+def run_chain(c):
+    """Deep chain of awaiting tasks (C03): depth n far beyond the interpreter's recursion limit; the bottom either
+    returns, blocks on a batch item (so the whole chain is walked again after the flush), or raises."""
+    import sys
+    n, mode = c["chain"]["depth"], c["chain"]["mode"]
+    scheduler.reset()
+    T = Tr(c)
+
+    @asynq_deco()
+    def link(k):
+        if k == 0:
+            if mode == "item":
+                v = yield T.new_item(0, 1, {"set": 5}, (), [0])
+                return v
+            if mode == "fail":
+                raise VErr(77)
+            return 5
+        v = yield link.asynq(k - 1)
+        return v + 1
+
+    try:
+        v = link(n)
+        res = {"Ok": [tv(v)]}
+    except RecursionError:
+        res = {"Err": [{"Unexpected": [{"s": "RecursionError"}]}]}
+    except Exception as e:
+        res = {"Err": [eid(e)]}
+    finally:
+        scheduler.reset()
+    want = {"Err": [77]} if mode == "fail" else {"Ok": [{"VInt": [n + 5]}]}
+    return {"out": {"": [[], []]}, "oracle": [], "full": [], "chain_result": res, "chain_want": want,
+            "recursion_limit": sys.getrecursionlimit()}
+
+
 def run_case(c):
     """default-options run; with c["variants"] (C20) also one run per option variant, each on a fresh scheduler"""
+    if c.get("chain"):
+        return run_chain(c)
     r = run_one(c)
     if c.get("variants"):
         vs = []
